@@ -42,7 +42,7 @@ func UnmarshalTWKBIDList(twkb []byte) ([]int64, bool, error) {
 	// When parsing the header, we already validated that if the ID list flag
 	// is set then we have a collection type. Each collection types starts with
 	// a uvarint indicating the number of elements, followed by the ID list.
-	numItems, err := p.parseUnsignedVarint()
+	numItems, err := p.parseCount()
 	if err != nil {
 		return nil, false, p.annotateError(fmt.Errorf("ID list size uvarint malformed: %w", err))
 	}
@@ -301,7 +301,7 @@ func (p *twkbParser) parseSize() error {
 		return fmt.Errorf("size varint malformed: %w", err)
 	}
 	p.size = p.pos + int(bytesRemaining)
-	if p.size > len(p.twkb) {
+	if bytesRemaining > uint64(len(p.twkb)-p.pos) {
 		return fmt.Errorf("remaining input (%d bytes) smaller than size varint indicates (%d bytes)", len(p.twkb)-p.pos, bytesRemaining)
 	}
 	return nil
@@ -442,7 +442,7 @@ func (p *twkbParser) parsePolygon() (Polygon, error) {
 }
 
 func (p *twkbParser) nextPolygon() (Polygon, error) {
-	numRings, err := p.parseUnsignedVarint()
+	numRings, err := p.parseCount()
 	if err != nil {
 		return Polygon{}, fmt.Errorf("num rings varint malformed: %w", err)
 	}
@@ -497,7 +497,7 @@ func (p *twkbParser) parseMultiPoint() (MultiPoint, error) {
 }
 
 func (p *twkbParser) nextMultiPoint() (MultiPoint, error) {
-	numPoints, err := p.parseUnsignedVarint()
+	numPoints, err := p.parseCount()
 	if err != nil {
 		return MultiPoint{}, fmt.Errorf("num points varint malformed: %w", err)
 	}
@@ -525,7 +525,7 @@ func (p *twkbParser) parseMultiLineString() (MultiLineString, error) {
 }
 
 func (p *twkbParser) nextMultiLineString() (MultiLineString, error) {
-	numLineStrings, err := p.parseUnsignedVarint()
+	numLineStrings, err := p.parseCount()
 	if err != nil {
 		return MultiLineString{}, fmt.Errorf("num linestrings varint malformed: %w", err)
 	}
@@ -553,7 +553,7 @@ func (p *twkbParser) parseMultiPolygon() (MultiPolygon, error) {
 }
 
 func (p *twkbParser) nextMultiPolygon() (MultiPolygon, error) {
-	numPolygons, err := p.parseUnsignedVarint()
+	numPolygons, err := p.parseCount()
 	if err != nil {
 		return MultiPolygon{}, fmt.Errorf("num polygons varint malformed: %w", err)
 	}
@@ -581,7 +581,7 @@ func (p *twkbParser) parseGeometryCollection() (GeometryCollection, error) {
 }
 
 func (p *twkbParser) nextGeometryCollection() (GeometryCollection, error) {
-	numGeoms, err := p.parseUnsignedVarint()
+	numGeoms, err := p.parseCount()
 	if err != nil {
 		return GeometryCollection{}, fmt.Errorf("num polygons varint malformed: %w", err)
 	}
@@ -614,7 +614,7 @@ func (p *twkbParser) nextGeometryCollection() (GeometryCollection, error) {
 // Utilise and update the running memory of the previous reference point.
 // Return the slice of coords, the number of points, and any error.
 func (p *twkbParser) parsePointCountAndArray() ([]float64, int, error) {
-	numPoints, err := p.parseUnsignedVarint()
+	numPoints, err := p.parseCount()
 	if err != nil {
 		return nil, 0, fmt.Errorf("num points varint malformed: %w", err)
 	}
@@ -627,6 +627,9 @@ func (p *twkbParser) parsePointCountAndArray() ([]float64, int, error) {
 // Utilise and update the running memory of the previous reference point.
 // The returned array will contain numPoints * the number of dimensions values.
 func (p *twkbParser) parsePointArray(numPoints int) ([]float64, error) {
+	if numPoints < 0 || numPoints > (len(p.twkb)-p.pos)/p.dimensions {
+		return nil, fmt.Errorf("%d points exceed the remaining input (%d bytes)", numPoints, len(p.twkb)-p.pos)
+	}
 	coords := make([]float64, numPoints*p.dimensions)
 	c := 0
 	for i := 0; i < numPoints; i++ {
@@ -654,6 +657,21 @@ func (p *twkbParser) parseIDList(numIDs int) error {
 		p.idList[i] = id
 	}
 	return nil
+}
+
+// parseCount parses the uvarint number of elements (points, rings, IDs, or
+// sub-geometries) that follow. Each element occupies at least one byte, so a
+// count larger than the remaining input is corrupt. Rejecting it up front
+// stops it from being used to size an allocation.
+func (p *twkbParser) parseCount() (uint64, error) {
+	n, err := p.parseUnsignedVarint()
+	if err != nil {
+		return 0, err
+	}
+	if n > uint64(len(p.twkb)-p.pos) {
+		return 0, fmt.Errorf("count %d exceeds the remaining input (%d bytes)", n, len(p.twkb)-p.pos)
+	}
+	return n, nil
 }
 
 func (p *twkbParser) parseUnsignedVarint() (uint64, error) {
